@@ -68,7 +68,7 @@ TEXT = {
               'compiles. firstFailure is COMPLETE: it is none exactly when the render has no error (firstFailure_none_iff_no_error, same hypotheses), i.e. exactly when the render succeeds provided it does not end in the '
               'model outcomes panic / unmodelled (firstFailure_none_iff_ok); for run on a source that compiles, firstFailure is the location of the error when run returns an error and none in every other case '
               '(run_firstFailure_complete), and run returns output iff firstFailure is none for a run that is defined (run_ok_iff_firstFailure_none). A break/continue that reaches the top is an error of the real '
-              'engine as well (`{% break %}` alone: "break outside a loop" at the line of the tag, no output; an included file consisting of a break: the same at the include tag\'s line - run on the real code), so firstFailure does not have to tell it from success. '
+              'engine as well (`{% break %}` alone: "break outside a loop" at the line of the tag, no output; a break on the first line of an included file: the same at the include tag\'s line - run on the real code), so firstFailure does not have to tell it from success. '
               'The walk is proved against the interaction tree in both directions: Proofs/RenderTrace.lean (sp_renderNode ... sp_frenderOf: an error of the run stands at the end of the trace) and '
               'Proofs/TraceExact.lean (fx_renderNode ... fx_frenderOf, traceRoot_fin_none_iff: the trace ends with a site only when the run ends with an error or a sentinel). Line 0: '
               'render_error_line_nonzero (include-free tree, no tag or object at line 0, fault-free writer: the error line is not 0 and the '
